@@ -6,7 +6,7 @@ CLAIMS.update({
         "DESIGN 3, 4/C01",
     ),
     "C02": (
-        "The loop-free step functions Repeated::next/next_cfg and SeparatedBy::next (and the adaptor steps enumerate/map/or_not) are proved for all bounds, counts, flags, child behaviours and input lengths against the statement's case table; the count induction from step contracts to whole repetitions is a Verus lemma; the drivers that merely iterate a step (collect, count, foldl, foldr, Repeated::go, SeparatedBy::go, collect_exactly) are bounded stand-ins.",
+        "The loop-free step functions Repeated::next/next_cfg and SeparatedBy::next (and the adaptor steps enumerate/map/or_not) are proved for all bounds, counts, flags, child behaviours and input lengths against the statement's case table; the count induction from step contracts to whole repetitions is a Verus lemma; the drivers that merely iterate a step (collect, count, foldl, foldr, Repeated::go, SeparatedBy::go, collect_exactly) are bounded stand-ins (2 items, 3 in the thorough tier); the composition of the real Repeated / configure() with the real collect into a real Vec is checked bounded with bounds of the full usize range (sizing hints and set-up exchanged besides `next`, no panic however large the bound).",
         _A + " Items consume input (K-prog).",
         "DESIGN 3.7, 4/C02",
     ),
@@ -32,7 +32,7 @@ CLAIMS.update({
     ),
     "C07": (
         "Capture sites (map_with, to_span, to_slice, try_map, try_map_with, validate, select, foldl_with, pratt folds) are proved to hand user code exactly span/slice(entry cursor .. cursor after the child); per input kind span/slice are proved to cover exactly the cursor range, slices being sub-slices of the caller's buffer (slices, arrays, &str on char boundaries: bounded buffers of 4), mapped/iter inputs spanning first-token start to last-token end.",
-        _A + " The empty-match clause on token-spanned inputs fails and is a recorded finding.",
+        _A + " The empty-match clause on token-spanned inputs (Input::map, IterInput) fails when a token is still ahead and is a recorded finding (two entries); at the end of input it holds and is asserted separately.",
         "DESIGN 4/C07",
     ),
     "C08": (
@@ -41,12 +41,12 @@ CLAIMS.update({
         "DESIGN 4/C08",
     ),
     "C09": (
-        "left_power/right_power verified by Verus on extracted text (2x, 2x+1 / 2x+1, 2x, no overflow); the operator steps Infix/Prefix/Postfix::do_parse_* proved completely (attempted iff power >= minimum, operand parsed at the operator's right power, unusable operator rewound and left operand handed back, fold in token order with the whole sub-expression's span); tuple and boxed tables proved, Vec table and the pratt_go loop bounded; the binding-power lemma (Verus) gives grouping by associativity.",
+        "left_power/right_power verified by Verus on extracted text (2x, 2x+1 / 2x+1, 2x, no overflow); the operator steps Infix/Prefix/Postfix::do_parse_* proved completely (attempted iff power >= minimum, operand parsed at the operator's right power, unusable operator rewound and left operand handed back, fold in token order with the whole sub-expression's span); tuple and boxed tables proved, Vec table bounded; the driver loop pratt_go is under a contract of its own against a contract stub as operator table (an expression starts with a prefix attempt else an atom; every operand is parsed, and every postfix/infix attempt inside it made, at exactly the power the enclosing operator asked for, the outermost at 0; postfix before infix at each position with the expression built so far as left operand; the expression ends where the last round of attempts started) - bounded to 1 operator application in the quick tier, 2 in the thorough tier - and against real infix operators (2 operands); the binding-power lemma (Verus) gives grouping by associativity.",
         _A,
         "DESIGN 4/C09",
     ),
     "C10": (
-        "One Input contract (begin at 0; next yields token i and cursor i+1 or None at the end without moving; spans/slices cover the cursor range) is proved per representation: &[T], &[T;N], &str (bounded buffers), Input::map, map_span, with_context over the symbolic input (unbounded), IterInput and Stream (bounded, at-most-once in-order pulls); all combinators are proved against an input that satisfies nothing but this contract.",
+        "One Input contract (begin at 0; next yields token i and cursor i+1 or None at the end without moving; spans/slices cover the cursor range) is proved per representation: &[T], &[T;N], &str (bounded buffers), Input::map, map_span, with_context over the symbolic input (unbounded), IterInput and Stream, boxed or not (bounded, at-most-once in-order pulls); all combinators are proved against an input that satisfies nothing but this contract.",
         _A + " IoInput is proved against the same contract over a ghost reader with <= 4 bytes (bounded; BufReader is std's); Graphemes and the 512-item batch boundary of Stream are not covered.",
         "DESIGN 4/C10",
     ),
@@ -61,7 +61,7 @@ CLAIMS.update({
         "DESIGN 4/C12",
     ),
     "C13": (
-        "Every harness enters its parser through Mode::invoke (go_emit/go_check, the dynamic-dispatch entry points), so dispatch-path independence is part of every combinator's proof; the hand-written Clone impls are proved to copy every field to the same field (clone = same parser value). Forwarding contract proved for &T, &&T, Box, Rc, Arc, Boxed (and its clone), Either, Cache::get: exactly one run of the wrapped parser from the caller's state with the same result, position, errors and pending error; a second parse through the same Cache is a fresh run; parse_with_state builds its per-parse state from its arguments only. Interior-mutability sites of the library are enumerated by a source scan compared with a reviewed list.",
+        "Every harness enters its parser through Mode::invoke (go_emit/go_check, the dynamic-dispatch entry points), so dispatch-path independence is part of every combinator's proof; the hand-written Clone impls are proved to copy every field to the same field (clone = same parser value). Forwarding contract proved for &T, &&T, Box, Rc, Arc, Boxed (and its clone), Either, Cache::get: exactly one run of the wrapped parser from the caller's state with the same result, position, errors and pending error; a second parse through the same Cache is a fresh run; parse_with_state builds its per-parse state from its arguments only. Interior-mutability sites of the library are enumerated by a source scan compared with a reviewed list; hand-written dynamic-dispatch entry points (go_emit/go_check not generated by go_extra!) are found by a source scan, and every obligation of the harnesses of such a combinator is then a C13 obligation (none exists on the pinned tree).",
         _A + " &self immutability of safe code is the compiler's guarantee; threads are not decided.",
         "DESIGN 4/C13",
     ),
@@ -91,7 +91,7 @@ CLAIMS.update({
         "DESIGN 4/C18",
     ),
     "C19": (
-        "Drop-exactly-once contracts on the unsafe sites with a drop-tracking output type: array group and collect_exactly into [T;N] / Box<[T;N]> for N = 2 (3 in thorough): success hands every value to the caller undropped, failure at any index drops the initialised prefix exactly once, Check mode builds no values; the same with a zero-sized output type that has drop glue (the unsafe sites branch on sizes); Kani's pointer/initialisation checks are clean.",
+        "Drop-exactly-once contracts on the unsafe sites with a drop-tracking output type: array group and collect_exactly into [T;N] / Box<[T;N]> for N = 2 (3 in thorough): success hands every value to the caller undropped, failure at any index drops the initialised prefix exactly once, Check mode builds no values; the same with a zero-sized output type that has drop glue (the unsafe sites branch on sizes); Kani's pointer/initialisation/drop-validity checks at these sites are obligations of this property too and are clean.",
         _A + " Const-generic N is a finite family of complete proofs (2, 3); everywhere else drop-once is rustc's guarantee for safe code.",
         "DESIGN 4/C19",
     ),
